@@ -536,3 +536,54 @@ def expand_table_dispatch(tree, known_globals):
     if count[0]:
         ast.fix_missing_locations(tree)
     return count[0]
+
+
+# ---------------------------------------------------------------------------------------------------
+# N30: a new module-level constant (a string/number, or a tuple/list/set of such, possibly concatenated from other new constants)
+# is written out again where it is used: `form in _STRX_FORMS` -> `form in ('DW_FORM_strx', ...)`
+# ---------------------------------------------------------------------------------------------------
+
+def inline_new_constants(tree, known_globals):
+    consts = {}
+
+    def value_of(v):
+        if isinstance(v, ast.Constant) and isinstance(v.value, (str, int, bytes)):
+            return v
+        if isinstance(v, (ast.Tuple, ast.List, ast.Set)) and all(isinstance(e, ast.Constant) for e in v.elts):
+            return ast.Tuple(elts=list(v.elts), ctx=ast.Load())
+        if isinstance(v, ast.Name) and v.id in consts:
+            return consts[v.id]
+        if isinstance(v, ast.BinOp) and isinstance(v.op, ast.Add):
+            a, b = value_of(v.left), value_of(v.right)
+            if isinstance(a, ast.Tuple) and isinstance(b, ast.Tuple):
+                return ast.Tuple(elts=list(a.elts) + list(b.elts), ctx=ast.Load())
+        return None
+    counts = {}
+    for st in tree.body:
+        if isinstance(st, ast.Assign) and len(st.targets) == 1 and isinstance(st.targets[0], ast.Name):
+            counts[st.targets[0].id] = counts.get(st.targets[0].id, 0) + 1
+    for st in tree.body:
+        if isinstance(st, ast.Assign) and len(st.targets) == 1 and isinstance(st.targets[0], ast.Name):
+            nm = st.targets[0].id
+            if nm in known_globals or counts.get(nm) != 1:
+                continue
+            v = value_of(st.value)
+            if v is not None:
+                consts[nm] = v
+    if not consts:
+        return []
+    used = set()
+
+    class S(ast.NodeTransformer):
+        def visit_Name(self, n):
+            if isinstance(n.ctx, ast.Load) and n.id in consts:
+                used.add(n.id)
+                return ast.copy_location(copy.deepcopy(consts[n.id]), n)
+            return n
+    for st in tree.body:
+        if isinstance(st, (ast.FunctionDef, ast.ClassDef)):
+            # not where a local of the same name is bound
+            S().visit(st)
+    if used:
+        ast.fix_missing_locations(tree)
+    return sorted(used)
